@@ -459,6 +459,8 @@ func (s *Service) serviceRequestWithTarget(w http.ResponseWriter, r *http.Reques
 	}
 
 	for {
+		changes := s.pauseController.changeCount()
+
 		simYield("service.gate", r)
 		if s.handlePausedAndStoppedRequests(w, r) {
 			return
@@ -470,10 +472,12 @@ func (s *Service) serviceRequestWithTarget(w http.ResponseWriter, r *http.Reques
 		target, req, err := lb.claimTarget(r)
 		simYield("service.claimed", r)
 
-		if s.pauseController.GetState() != PauseStateRunning {
-			// The service was paused or stopped after this request passed the
-			// check above. Give the claim back and wait like any other request
-			// that arrives while the service is paused.
+		if s.pauseController.changeCount() != changes {
+			// The service was paused, stopped or resumed since this request set
+			// out: the claim, or its failure, may belong to a drain that is over
+			// by now. Give the claim back and start again, so that the request
+			// waits like any other that arrives while the service is paused, and
+			// is not refused because of a stop that has been lifted meanwhile.
 			if err == nil {
 				target.endInflightRequest(req)
 			}
